@@ -75,7 +75,7 @@ def run_impl(c):
         from bycycle.plts import plot_cyclepoints_array
         fs = c['fs']
         n = max(c['ks']) + 6
-        times = np.arange(0, n / fs, 1 / fs)
+        times = np.arange(n) / fs
         sig = np.arange(len(times), dtype=float)
         got = []
         ks = [k for k in c['ks'] if k + 4 < len(times)]
@@ -100,7 +100,7 @@ def run_impl(c):
     except Exception as e:
         return {'skip': 'compute_features raised %s' % exc_kind(e)}
     sc = pipeline.sample_cols(c['center'])
-    times = np.arange(0, len(sig) / fs, 1 / fs)
+    times = np.arange(len(sig)) / fs
     xlim, s0, nview = _xlim(c, times, df, (sc[1], sc[2]))
     out = {'s0': s0, 'n': nview, 'xlim': None if xlim is None else [float(xlim[0]).hex(), float(xlim[1]).hex()]}
     centres = [int(v) for v in df[sc[0]].values]
